@@ -202,6 +202,30 @@ func (cx *clusterRun) execOp(rec *opRec) {
 				rec.Err = err.Error()
 			}
 		}
+	case "restartas":
+		// the crashed process comes back on the same address under a NEW name
+		if !n.created || !n.crashed {
+			rec.Err = "not crashed"
+			return
+		}
+		if !n.shutCalled && n.m != nil {
+			n.shutCalled = true
+			_ = n.m.Shutdown()
+		}
+		cx.mu.Lock()
+		nn := cx.cl.addNode(fmt.Sprintf("%sx%d", n.name, len(cx.cl.nodes)), n.ip, n.cfgp)
+		cx.mu.Unlock()
+		if err := cx.cl.create(nn, nil); err != nil {
+			rec.Err = err.Error()
+			return
+		}
+		if len(op.L) > 0 {
+			k, err := nn.m.Join(cx.joinAddrs(op.L))
+			rec.Ret = k
+			if err != nil {
+				rec.Err = err.Error()
+			}
+		}
 	case "leave":
 		if !n.running() {
 			rec.Err = "not running"
